@@ -1663,3 +1663,19 @@ Proof.
       * constructor; [exact Hk | apply IH; exact Hr].
       * constructor; [exact Hk | apply Forall2_partly_refl].
 Qed.
+
+(* ---- overload detection: @overload counts wherever it stands among the decorators ---- *)
+Lemma is_overload_fold ds : forall acc,
+  fold_left (fun (acc d : bool) => if d then true else acc) ds acc = acc || existsb (fun d => d) ds.
+Proof.
+  induction ds as [|d ds IH]; intros acc; cbn [fold_left existsb].
+  - rewrite orb_false_r. reflexivity.
+  - rewrite IH. destruct d, acc; reflexivity.
+Qed.
+
+Theorem is_overload_func_any ds : is_overload_func ds = true <-> In true ds.
+Proof.
+  unfold is_overload_func. rewrite is_overload_fold. cbn [orb]. rewrite existsb_exists. split.
+  - intros [x [Hx E]]. subst. exact Hx.
+  - intros H. exists true. auto.
+Qed.
